@@ -219,7 +219,7 @@ class _APEv2Data(object):
             raise APEBadItemError("tag size larger than the file")
         fileobj.seek(start)
 
-        while start > 0:
+        while start >= 24:
             # Clean up broken writing from pre-Mutagen PyMusepack.
             # It didn't remove the first 24 bytes of header.
             try:
